@@ -23,12 +23,13 @@ import (
 	"time"
 
 	"reservoir/config"
+	"reservoir/utils/bytesize"
 	"verifharness/e2elib"
 	"verifharness/emit"
 )
 
 var (
-	flagProp = flag.String("prop", "C08x", "C08x|C10x")
+	flagProp = flag.String("prop", "C08x", "C08x|C09x|C10x")
 	flagSeed = flag.Int64("seed", 1, "PRNG seed")
 	flagTier = flag.String("tier", "quick", "quick|thorough")
 	flagOut  = flag.String("out", ".", "output directory")
@@ -268,6 +269,58 @@ func runC10x(r *emit.Rand) {
 	os.RemoveAll(dir)
 }
 
+// C09x: the cache directory refuses the removal of eviction victims (the victim's file is turned into a
+// non-empty directory, which makes os.Remove fail also for root) while the cache is at its size limit.
+// The origin is healthy all the time: every request must be answered with the origin's 200, promptly.
+func runC09x(r *emit.Rand) {
+	for _, shards := range []int{1, 2, 32} {
+		dir := filepath.Join(*flagOut, fmt.Sprintf("envx%d", shards))
+		env, err := e2elib.Start(e2elib.Options{Backend: "file", Dir: dir, Shards: shards, Tune: func(cfg *config.Config) {
+			cfg.Cache.MaxCacheSize.Overwrite(bytesize.ByteSize(1024))
+		}})
+		if err != nil {
+			panic(err)
+		}
+		env.Origin.SetHandler(func(req e2elib.OriginRequest, k int) e2elib.Answer {
+			return e2elib.NewAnswer(200, []byte("T="+req.Target+";"+strings.Repeat("f", 400)), "Cache-Control: max-age=600")
+		})
+		get := func(path string) (*e2elib.Response, error) {
+			return env.DoPlain(env.PlainRequest("GET", path, nil, nil), "GET", 4*time.Second)
+		}
+		cacheDir := filepath.Join(dir, "cache")
+		for i := 0; i < 2; i++ { // fill: two entries of ~400 bytes
+			get(fmt.Sprintf("/fill%d", i))
+		}
+		ents, _ := os.ReadDir(cacheDir)
+		for _, e := range ents { // every stored file becomes unremovable
+			if e.IsDir() || strings.HasSuffix(e.Name(), ".tmp") {
+				continue
+			}
+			p := filepath.Join(cacheDir, e.Name())
+			os.Remove(p)
+			os.MkdirAll(filepath.Join(p, "pin"), 0755)
+		}
+		for i := 0; i < 12; i++ {
+			path := fmt.Sprintf("/after%d", i)
+			t0 := time.Now()
+			resp, err := get(path)
+			total++
+			dist[fmt.Sprintf("unremovable-victims/shards=%d", shards)]++
+			det := map[string]any{"shards": shards, "request": path, "request_no": i + 1, "elapsed_ms": time.Since(t0).Milliseconds()}
+			if err != nil {
+				fail("unremovable-victims", det, "a request the origin answers fine got no response (hang or dropped connection): "+err.Error())
+				return // the proxy holds a hung request: closing the environment would wait for it; the process exit cleans up
+			}
+			if resp.Status != 200 || !strings.HasPrefix(string(resp.Body), "T="+path+";") {
+				det["status"] = resp.Status
+				fail("unremovable-victims", det, "the origin's good answer was not delivered")
+			}
+		}
+		env.Close()
+		os.RemoveAll(dir)
+	}
+}
+
 func trunc(s string) string {
 	if len(s) > 80 {
 		return s[:80] + "..."
@@ -287,6 +340,9 @@ func main() {
 	case "C08x":
 		runC08x(r)
 		rule = "(a) GET with Range, origin answers 416 then (without Range) a storable or non-storable 200/404/503, retry_on_range_416 on and off: status, X-Answer-Id header and body id of the client response must belong to one origin answer; (b) entry stored, aged stale, revalidation answered 503/404/500/429, then the direct fallback: no conditional header reaches the origin that the client did not send, and the unconditional GET is not answered 304; x backends x plain/CONNECT"
+	case "C09x":
+		runC09x(r)
+		rule = "file backend at its 1 kB limit whose stored files cannot be removed (turned into non-empty directories), shards 1/2/32: 12 further requests to a healthy origin must each be answered with the origin's 200 within 4 s"
 	case "C10x":
 		runC10x(r)
 		rule = "2-6 requests (GET/HEAD/Range, sized, chunked and non-storable answers, repeated targets) written in ONE write on a CONNECT tunnel: each must be answered, in order, with status, X-Target and body equal to what the same request gets on a tunnel of its own"
